@@ -18,11 +18,13 @@ def install():
         ns = ComposedNode.__dict__['ayns']
         orig = ns._names['filter_nodes']
 
-        def filter_nodes(self, condition, prefix=None, removed=None):
+        def filter_nodes(self, condition, prefix=None, removed=None, **kw):
             if getattr(condition, '__name__', '') == 'keep_if_exists':
-                before = sum(1 for _ in self.ayns.nodes(allow_duplicates=True))
-                ret = orig(self, condition, prefix=prefix, removed=removed)
-                after = sum(1 for _ in self.ayns.nodes(allow_duplicates=True))
+                # (an element dropped from a list may leave a hole behind until the merge is over: not counted as a node)
+                real = lambda: sum(1 for n in self.ayns.nodes(allow_duplicates=True) if not n.__dict__.get('_is_hole'))
+                before = real()
+                ret = orig(self, condition, prefix=prefix, removed=removed, **kw)
+                after = real()
                 if after != before:
                     counters['prefilter_drops'] += 1
                 return ret
@@ -30,12 +32,13 @@ def install():
                 # pruning of the older tree under a deleting newer node: did a LIST lose some but not all of its elements?
                 # (the survivors then move to lower indices before the newer elements are merged index-wise)
                 lists = [n for n in self.ayns.nodes(include_self=True, allow_duplicates=True) if isinstance(n, list)]
-                before = {id(n): len(n) for n in lists}
-                ret = orig(self, condition, prefix=prefix, removed=removed)
-                if any(0 < len(n) < before[id(n)] for n in lists):
+                full = lambda n: sum(1 for x in list.__iter__(n) if not x.__dict__.get('_is_hole'))
+                before = {id(n): full(n) for n in lists}
+                ret = orig(self, condition, prefix=prefix, removed=removed, **kw)
+                if any(0 < full(n) < before[id(n)] for n in lists):
                     counters['partial_list_prune'] += 1
                 return ret
-            return orig(self, condition, prefix=prefix, removed=removed)
+            return orig(self, condition, prefix=prefix, removed=removed, **kw)
         ns._names['filter_nodes'] = filter_nodes
     except Exception:
         pass
